@@ -350,6 +350,174 @@ fn long_reps(tier: Tier) -> u64 {
     tier.pick(1100, 66000)
 }
 
+// ---------------------------------------------------------------------------
+// concurrent evaluations at depth: handler-point interleavings
+
+const DEPTH_SHAPES: &[&str] = &["left-chain", "paren-nest", "list-nest", "call-nest", "ternary-nest"];
+
+/// a program whose evaluation is `d` levels deep when it reaches its only leaf `p()`
+fn deep_program(shape: &str, d: usize) -> String {
+    match shape {
+        "left-chain" => format!("p(){}", " + 1".repeat(d)),
+        "paren-nest" => format!("{}p(){}", "(1 + ".repeat(d), ")".repeat(d)),
+        "list-nest" => format!("{}p(){}", "[".repeat(d), "]".repeat(d)),
+        "call-nest" => format!("{}p(){}", "max(".repeat(d), ")".repeat(d)),
+        _ => format!("{}p(){}", "true ? ".repeat(d), " : 0".repeat(d)),
+    }
+}
+
+fn depth_ladder(tier: Tier) -> Vec<usize> {
+    // doubling: for any budget L in [3, 2 * max) some d has d <= L < 2d, i.e. one evaluation
+    // alone fits and two at once do not
+    let top = tier.pick(768, 3072);
+    let mut v = vec![3usize];
+    while *v.last().unwrap() < top {
+        v.push(v.last().unwrap() * 2);
+    }
+    v
+}
+
+fn depth_cases(tier: Tier) -> Vec<(usize, usize, usize)> {
+    let mut v = Vec::new();
+    for a in 0..DEPTH_SHAPES.len() {
+        for b in 0..DEPTH_SHAPES.len() {
+            for d in depth_ladder(tier) {
+                v.push((a, b, d));
+            }
+        }
+    }
+    v
+}
+
+struct Gate {
+    st: std::sync::Mutex<(bool, bool)>, // (reached, go)
+    cv: std::sync::Condvar,
+}
+
+impl Gate {
+    fn new(open: bool) -> Arc<Gate> {
+        Arc::new(Gate { st: std::sync::Mutex::new((false, open)), cv: std::sync::Condvar::new() })
+    }
+    fn open(&self) {
+        self.st.lock().unwrap().1 = true;
+        self.cv.notify_all();
+    }
+    /// wait until the evaluation reached its leaf or `done` says it ended without reaching it
+    fn wait_reached(&self, done: &std::sync::atomic::AtomicBool) -> bool {
+        let t0 = std::time::Instant::now();
+        let mut g = self.st.lock().unwrap();
+        loop {
+            if g.0 {
+                return true;
+            }
+            if done.load(std::sync::atomic::Ordering::SeqCst) || t0.elapsed() > Duration::from_secs(60) {
+                return false;
+            }
+            g = self.cv.wait_timeout(g, Duration::from_millis(2)).unwrap().0;
+        }
+    }
+}
+
+/// evaluate `prog` on a fresh context whose `p` parks at the gate; returns the shown result
+fn gated_eval(prog: String, gate: Arc<Gate>, done: Arc<std::sync::atomic::AtomicBool>) -> std::thread::JoinHandle<String> {
+    std::thread::Builder::new()
+        .stack_size(256 << 20)
+        .spawn(move || {
+            let mut ctx = Context::new();
+            let g = gate.clone();
+            ctx.set_func(
+                "p",
+                Arc::new(move |_| {
+                    let mut st = g.st.lock().unwrap();
+                    st.0 = true;
+                    g.cv.notify_all();
+                    while !st.1 {
+                        st = g.cv.wait(st).unwrap();
+                    }
+                    Ok(Value::Number(Decimal::from(7)))
+                }),
+            );
+            let r = guarded(|| {
+                let t = parse_expression(&prog).map_err(|e| format!("parse: {:?}", e))?;
+                t.exec(&mut ctx).map_err(|e| format!("{:?}", e))
+            });
+            done.store(true, std::sync::atomic::Ordering::SeqCst);
+            match r {
+                Res::Ok(v) => format!("Ok({})", show_value(&v)),
+                Res::Err(e) => format!("Err({})", e.chars().take(80).collect::<String>()),
+                Res::Panic(m) => format!("PANIC({})", m.chars().take(80).collect::<String>()),
+            }
+        })
+        .expect("spawn")
+}
+
+/// One case: evaluations A and B, each `d` deep at its leaf. Schedules at handler-call
+/// granularity (each evaluation has one handler point, its leaf): alone, A inside B (A parked
+/// at its leaf while B runs from start to end), both parked at their leaves at once and
+/// released in either order. Every result must equal the evaluation made alone.
+fn run_depth_case(case: (usize, usize, usize), out: &mut WorkerOut) {
+    use std::sync::atomic::AtomicBool;
+    let (sa, sb, d) = case;
+    let pa = deep_program(DEPTH_SHAPES[sa], d);
+    let pb = deep_program(DEPTH_SHAPES[sb], d);
+    let label = format!("concurrent-depth|A={} B={} depth={}", DEPTH_SHAPES[sa], DEPTH_SHAPES[sb], d);
+    let alone = |p: &String| gated_eval(p.clone(), Gate::new(true), Arc::new(AtomicBool::new(false))).join().unwrap_or_else(|_| "thread died".into());
+    let (alone_a, alone_b) = (alone(&pa), alone(&pb));
+    out.evals += 2;
+    let mut check = |what: &str, got_a: &str, got_b: &str, out: &mut WorkerOut| {
+        out.evals += 1;
+        out.count("validated", 1);
+        out.count("transitions", 1);
+        if got_a == alone_a && got_b == alone_b {
+            out.outcomes.insert("concurrent-same-as-alone".into());
+        } else {
+            let class = if got_a.starts_with("PANIC") || got_b.starts_with("PANIC") { "panic" } else { "result" };
+            out.fail(
+                format!("concurrent-depth:{}:{}:A={}:B={}", class, what, DEPTH_SHAPES[sa], DEPTH_SHAPES[sb]),
+                format!("{} schedule={}", label, what),
+                format!("alone: A -> {}, B -> {}; in this schedule: A -> {}, B -> {}", alone_a, alone_b, got_a, got_b),
+            );
+        }
+    };
+    // schedule 1: A parked at its leaf, B runs from start to end, then A resumes
+    {
+        let (ga, da) = (Gate::new(false), Arc::new(AtomicBool::new(false)));
+        let ha = gated_eval(pa.clone(), ga.clone(), da.clone());
+        ga.wait_reached(&da);
+        let rb = alone(&pb);
+        ga.open();
+        let ra = ha.join().unwrap_or_else(|_| "thread died".into());
+        check("B-inside-A", &ra, &rb, out);
+    }
+    // schedules 2, 3: both parked at their leaves at once, released A first / B first
+    for a_first in [true, false] {
+        let (ga, da) = (Gate::new(false), Arc::new(AtomicBool::new(false)));
+        let (gb, db) = (Gate::new(false), Arc::new(AtomicBool::new(false)));
+        let ha = gated_eval(pa.clone(), ga.clone(), da.clone());
+        ga.wait_reached(&da);
+        let hb = gated_eval(pb.clone(), gb.clone(), db.clone());
+        gb.wait_reached(&db);
+        let (ra, rb);
+        if a_first {
+            ga.open();
+            ra = ha.join().unwrap_or_else(|_| "thread died".into());
+            gb.open();
+            rb = hb.join().unwrap_or_else(|_| "thread died".into());
+        } else {
+            gb.open();
+            rb = hb.join().unwrap_or_else(|_| "thread died".into());
+            ga.open();
+            ra = ha.join().unwrap_or_else(|_| "thread died".into());
+        }
+        check(if a_first { "both-at-leaf,A-released-first" } else { "both-at-leaf,B-released-first" }, &ra, &rb, out);
+    }
+    // and afterwards each alone again
+    let (again_a, again_b) = (alone(&pa), alone(&pb));
+    check("alone-afterwards", &again_a, &again_b, out);
+    out.count("states", 1);
+    out.nontrivial.insert(hash64(&label));
+}
+
 fn depth(tier: Tier) -> u32 {
     tier.pick(3, 4)
 }
@@ -387,6 +555,7 @@ impl Prop for C16 {
                 Stage { name: "registration".into(), len: reg_histories().len() as u64, chunk: 1, timeout: Duration::from_secs(60), what: "histories of <= 5 steps with one register_infix_op at every position, or a registration followed by a re-registration with another handler and precedence, each made by the calling thread or by another (joined) thread; each history in a fresh process (a lexeme probed before it becomes an operator must be an operator afterwards; nothing remembered from before a registration may survive it)".into() },
                 Stage { name: "long".into(), len: (PROGRAMS.len() * PROGRAMS.len()) as u64, chunk: 40, timeout: Duration::from_secs(600), what: "for every ordered pair (p, q): N repetitions (1100 quick / 66000 thorough) of parse(p) / execute(p) followed by every operation on q (capacity / accumulation effects; single long histories, not exhaustive)".into() },
                 Stage { name: "histories".into(), len: n, chunk: (n / 64).max(500), timeout: Duration::from_secs(1800), what: format!("every history of <= {} operations, in process, no de-duplication", depth(tier)) },
+                Stage { name: "concurrent-depth".into(), len: depth_cases(tier).len() as u64, chunk: 10, timeout: Duration::from_secs(900), what: "two evaluations on separate contexts and threads, each d levels deep (5 nesting shapes x 5, d doubling from 3) when it reaches its single context-function leaf; all schedules at handler-call granularity (B inside A, both at their leaves released in either order); every result equals the evaluation made alone, before and afterwards".into() },
             ],
             rule: format!(
                 "operations = {{parse, execute on a fresh context, exec on long-lived context A, exec on long-lived context B}} x {} programs (assigning, failing midway, reading names other programs assign, using functions / prefix / infix / postfix registries, a context function bound only in A, a name that other tests register as operator, the empty program); a program parsed earlier in a history is evaluated from that stored AST. \
@@ -419,6 +588,14 @@ impl Prop for C16 {
                 run_history(&ops, &world, &model_asts, "fresh", out);
                 out.count("states", 1);
                 out.sample(ops.iter().map(|o| op_text(*o)).collect::<Vec<_>>().join(" ; "));
+            }
+            return;
+        }
+        if stage == 4 {
+            let cases = depth_cases(tier);
+            for i in a..b {
+                out.idx = Some(i);
+                run_depth_case(cases[i as usize], out);
             }
             return;
         }
@@ -460,6 +637,10 @@ impl Prop for C16 {
     }
     fn case_text(&self, tier: Tier, stage: usize, i: u64) -> String {
         let n = n_ops();
+        if stage == 4 {
+            let (a, b, d) = depth_cases(tier)[i as usize];
+            return format!("A={} B={} depth={}", DEPTH_SHAPES[a], DEPTH_SHAPES[b], d);
+        }
         if stage == 2 {
             return format!("{} x {:?} then {:?}", long_reps(tier), PROGRAMS[(i as usize) / PROGRAMS.len()], PROGRAMS[(i as usize) % PROGRAMS.len()]);
         }
